@@ -155,3 +155,39 @@ c01_empty!(c01_empty_savage2, savage2_q);
 c01_empty!(c01_empty_jc2m, jc2m_q);
 c01_empty!(c01_empty_ffow, ffow_q);
 c01_empty!(c01_empty_master, master_specific);
+
+// -- legacy kick packet with every declared length ------------------------------
+c01!(c01_legacy14_any_length, 9, mc_legacy14, &[0xFF], 2);
+c01!(c01_legacy16_any_length, 9, mc_legacy16, &[0xFF], 2);
+c01!(c01_legacyb18_any_length, 9, mc_legacyb18, &[0xFF], 2);
+
+/// Unreal 2 string decoder on hostile inputs (concrete instances: symbolic
+/// input exceeds the time cap): a UCS-2 length running past the data, an
+/// unterminated Latin-1 string, a lone UCS-2 flag byte: no panic, position
+/// inside the packet.
+#[cfg(kani)]
+#[kani::proof]
+#[kani::unwind(8)]
+#[kani::stub(alloc::fmt::format, stub_format)]
+#[kani::stub(core::slice::memchr::memchr, stub_memchr)]
+#[kani::stub(encoding_rs::Encoding::decode, stub_encoding_decode)]
+fn c01_unreal2_string_hostile_instances() {
+    use byteorder::LittleEndian;
+    use gamedig::protocols::unreal2::Unreal2StringDecoder;
+    use gamedig::verif_hook::Buffer;
+    let a = [0x85u8, b'H', 0];
+    let mut b = Buffer::<LittleEndian>::new(&a);
+    let r = b.read_string::<Unreal2StringDecoder>(None);
+    assert!(r.is_err() && b.current_position() <= 3);
+    core::mem::forget(r);
+    let a = [3u8, b'H', b'i'];
+    let mut b = Buffer::<LittleEndian>::new(&a);
+    let r = b.read_string::<Unreal2StringDecoder>(None);
+    assert!(b.current_position() <= 3);
+    core::mem::forget(r);
+    let a = [0x81u8];
+    let mut b = Buffer::<LittleEndian>::new(&a);
+    let r = b.read_string::<Unreal2StringDecoder>(None);
+    assert!(b.current_position() <= 1);
+    core::mem::forget(r);
+}
